@@ -505,3 +505,44 @@ theorem fileInfo_bad {ns : NewSsi} (fh : Nat) (hfh : fh ≥ ns.files.length) :
   simp [NewSsi.opened, hfh]
 
 end EaselModel.Ssi
+
+namespace EaselModel.Ssi
+
+/-- the documented outcome of `esl_ssi_FindSubseq` for a record `(fh, roff, doff, L)` in a file with line geometry
+    `(bpl, rpl)`: case 4/3 (no data offset, or no fast-subseq geometry): start of the data, residue 1; case 1
+    (`bpl = rpl+1`): the exact byte of residue `start`; case 2: the start of the line that holds residue `start`. -/
+def subseqSpec (k : PKey) (f : FileRec) (start : Nat) : SubHit :=
+  if k.doff = 0 ∨ ¬ (f.bpl > 0 ∧ f.rpl > 0) then { hit := hitOf k, doff := k.doff, actual := 1 }
+  else
+    let l := (start - 1) / f.rpl
+    if f.bpl = f.rpl + 1 then { hit := hitOf k, doff := (k.doff + l * f.bpl + (start - 1) % f.rpl) % 2^64, actual := start }
+    else { hit := hitOf k, doff := (k.doff + l * f.bpl) % 2^64, actual := (1 + l * f.rpl) % 2^64 }
+
+theorem findSubseq_primary {ns : NewSsi} (h : ns.WF) (hd : ns.Distinct) (k : PKey) (hk : k ∈ ns.pkeys)
+    (hfh : k.fnum < ns.files.length) (start : Nat) (h1 : 1 ≤ start) (h2 : start ≤ k.len) (hL : k.len < 2^63) :
+    ns.opened.findSubseq k.key (start : Int) = .ok (subseqSpec k ns.files[k.fnum] start) := by
+  have hfind : ns.opened.findName k.key = .ok (hitOf k) := findName_primary h hd k hk (FUEL - 1)
+  have hsg : toSigned k.len = (k.len : Int) := by
+    unfold toSigned
+    have : ¬ (k.len ≥ 2^63) := by omega
+    simp [this]
+  have hrange : ¬ ((start : Int) < 1 ∨ (start : Int) > toSigned k.len) := by
+    rw [hsg]; omega
+  have hfile : ns.opened.files[(hitOf k).fh]? = some (toSsiFile ns.flen ns.files[k.fnum]) := by
+    simp [NewSsi.opened, hitOf, hfh]
+  unfold Ssi.findSubseq
+  rw [hfind]
+  simp only [hitOf] at hrange hfile ⊢
+  simp only [hrange, ↓reduceIte, hfile, toSsiFile, Int.toNat_natCast]
+  unfold subseqSpec
+  by_cases hfast : ns.files[k.fnum].bpl > 0 ∧ ns.files[k.fnum].rpl > 0
+  · have hr : ns.files[k.fnum].rpl ≠ 0 := by omega
+    have hb : ns.files[k.fnum].bpl ≠ 0 := by omega
+    by_cases hdo : k.doff = 0
+    · simp [hdo, hitOf]
+    · by_cases hbr : ns.files[k.fnum].bpl = ns.files[k.fnum].rpl + 1
+      · simp [hfast, hdo, hr, hbr, hitOf]
+      · simp [hfast, hdo, hr, hb, hbr, hitOf]
+  · simp [hfast, hitOf]
+
+end EaselModel.Ssi
